@@ -23,6 +23,10 @@ def run(tier, seed, t0):
     defaults = [(be, lam) for be in vbuild.BACKENDS for lam in (80, 128)] if thorough else [("spqlios-fma", 128), ("spqlios-avx", 80)]
     for be, lam in defaults:
         jobs.append(Job("default%d-%s" % (lam, be), "drv_c15", "optim", be, ["--seed", seed, "--lambda", lam, "--reps", 1, "--lreps", 1], timeout=3600, weight=2))
+    for i, j in enumerate(jobs):      # process history: every other native job first generates and uses a custom parameter set
+        if j.tool is None and j.driver == "drv_c15" and i % 2 == 0:
+            j.args = j.args + ["--prelude", "1"]
+
     return vcheck.simple_run("C15", tier, seed, t0, jobs, "exploration", RULE,
                              ["the FFT image of the bootstrapping key is viewed as N doubles per polynomial on every back-end",
                               "small parameter sets (n = 12, N = 1024) for volume, the default sets once per listed back-end"],
